@@ -245,6 +245,19 @@ def value_alternatives(du: DefUse, e: ast.AST, at: ast.AST, depth: int = 4, max_
     return alts
 
 
+def expand_property(repo: Repo, fi: FunctionInfo, e: ast.AST) -> ast.AST:
+    """`self.X` where X is a @property of the same class whose body is a single `return <expr>`: that expression."""
+    if isinstance(e, ast.Attribute) and isinstance(e.value, ast.Name) and e.value.id == "self" and fi.cls:
+        clsq = repo.class_of(fi)
+        q = repo.method(clsq, e.attr) if clsq else None
+        pf = repo.functions.get(q) if q else None
+        if pf is not None and any(isinstance(d, ast.Name) and d.id == "property" for d in pf.node.decorator_list):
+            body = [b for b in pf.node.body if not (isinstance(b, ast.Expr) and isinstance(b.value, ast.Constant))]
+            if len(body) == 1 and isinstance(body[0], ast.Return) and body[0].value is not None:
+                return body[0].value
+    return e
+
+
 def returns_of(fn_node: ast.AST) -> List[ast.Return]:
     return [n for n in walk_function(fn_node) if isinstance(n, ast.Return)]
 
